@@ -3,6 +3,8 @@ package props
 import (
 	"fmt"
 	"math"
+	"sync/atomic"
+	"time"
 
 	"github.com/cinar/indicator/v2/asset"
 	"github.com/cinar/indicator/v2/helper"
@@ -247,6 +249,85 @@ func c08(ctx *run.Ctx) {
 			}
 		})
 	}
+	// Values of other element types: the simulation itself is carried out in
+	// float64 whatever the values are (whole-number prices in minor units, 32-bit
+	// floats), i.e. it equals the simulation over float64(value).
+	ctx.Case("typed-values", func(cc *run.Case) {
+		for rep := 0; rep < ctx.Pick(60, 600); rep++ {
+			n := cc.R.Range(1, 60)
+			word := make([]strategy.Action, n)
+			for i := range word {
+				word[i] = strategy.Action(cc.R.Pick(-1, 0, 0, 1, 1))
+			}
+			ints := make([]int, n)
+			i64s := make([]int64, n)
+			f32s := make([]float32, n)
+			asF := [3][]float64{make([]float64, n), make([]float64, n), make([]float64, n)}
+			for i := 0; i < n; i++ {
+				ints[i] = cc.R.Range(2, 900)
+				i64s[i] = int64(cc.R.Range(1, 5)) * 1_000_000_007
+				f32s[i] = float32(cc.R.FRange(0.01, 300))
+				asF[0][i], asF[1][i], asF[2][i] = float64(ints[i]), float64(i64s[i]), float64(f32s[i])
+			}
+			got := [3][]float64{
+				helper.ChanToSlice(strategy.Outcome(helper.SliceToChan(ints), helper.SliceToChan(word))),
+				helper.ChanToSlice(strategy.Outcome(helper.SliceToChan(i64s), helper.SliceToChan(word))),
+				helper.ChanToSlice(strategy.Outcome(helper.SliceToChan(f32s), helper.SliceToChan(word))),
+			}
+			for t, typ := range []string{"int", "int64", "float32"} {
+				want := simulate(asF[t], word)
+				if len(got[t]) != len(want) {
+					cc.Viol("", fmt.Sprintf("Outcome[%s]: %d outcomes for %d values", typ, len(got[t]), len(want)), nil)
+					return
+				}
+				for i := range want {
+					if !(math.Abs(got[t][i]-want[i]) <= 1e-12*math.Max(1, math.Abs(want[i]))) {
+						cc.Viol("", fmt.Sprintf("Outcome[%s] step %d = %.17g, the all-in/all-out simulation over the same values gives %.17g", typ, i, got[t][i], want[i]),
+							map[string]any{"type": typ, "values": asF[t], "actions": fmt.Sprint(word)})
+						return
+					}
+				}
+			}
+			cc.Count("typed_outcome_runs", 3)
+		}
+		cc.Distinct("typed-values")
+	})
+	// The outcomes ComputeWithOutcome returns are those of the actions it
+	// returns: a strategy is asked once (one that answers differently the
+	// second time - a random benchmark, a replay - shows whether it was).
+	ctx.Case("one-evaluation", func(cc *run.Case) {
+		for rep := 0; rep < ctx.Pick(40, 400); rep++ {
+			n := cc.R.Range(1, 80)
+			closes := make([]float64, n)
+			snaps := make([]*asset.Snapshot, n)
+			v := cc.R.FRange(1, 500)
+			for i := range closes {
+				v *= math.Exp(0.1 * cc.R.Norm())
+				closes[i] = v
+				snaps[i] = &asset.Snapshot{Date: reg.Day(i), Open: v, High: v, Low: v, Close: v, Volume: 100}
+			}
+			st := &moodyStrategy{seed: cc.R.U64()}
+			actions, outcomes := strategy.ComputeWithOutcome(st, helper.SliceToChan(snaps))
+			res := make(chan []strategy.Action, 1)
+			go func() { res <- helper.ChanToSlice(actions) }()
+			outs := helper.ChanToSlice(outcomes)
+			acts := <-res
+			want := simulate(closes, acts)
+			if len(outs) != len(want) {
+				cc.Viol("", fmt.Sprintf("ComputeWithOutcome: %d outcomes for %d actions", len(outs), len(acts)), nil)
+				return
+			}
+			for i := range want {
+				if !(math.Abs(outs[i]-want[i]) <= 1e-12*math.Max(1, math.Abs(want[i]))) {
+					cc.Viol("", fmt.Sprintf("ComputeWithOutcome: outcome[%d] = %.17g, simulating the actions it returned gives %.17g (the strategy's Compute was called %d times)", i, outs[i], want[i], st.calls.Load()),
+						map[string]any{"closes": closes, "actions": fmt.Sprint(acts)})
+					return
+				}
+			}
+			cc.Count("one_evaluation_runs", 1)
+		}
+		cc.Distinct("one-evaluation")
+	})
 	// Buy-and-hold through ComputeWithOutcome: outcome_i = v_i/v_0 - 1.
 	ctx.Case("buy-and-hold", func(cc *run.Case) {
 		bah := strategy.NewBuyAndHoldStrategy() // one instance for all runs, as a backtest over several assets uses it
@@ -286,6 +367,13 @@ func c08(ctx *run.Ctx) {
 				k2 := cc.R.Range(0, n-1)
 				snaps[k2].Low, snaps[k2].High = closes[k2]*0.2, closes[k2]*0.6
 			}
+			if n > 2 && rep%5 == 3 {
+				// a feed whose first sessions (or all of them) carry no volume: buying
+				// and holding starts with the first snapshot all the same
+				for i, k := 0, cc.R.Pick(1, 2, n/2, n); i < k; i++ {
+					snaps[i].Volume = 0
+				}
+			}
 			actions, outcomes := strategy.ComputeWithOutcome(bah, helper.SliceToChan(snaps))
 			res := make(chan []strategy.Action, 1)
 			go func() { res <- helper.ChanToSlice(actions) }()
@@ -306,4 +394,28 @@ func c08(ctx *run.Ctx) {
 		}
 		cc.Distinct("buy-and-hold")
 	})
+}
+
+// moodyStrategy recommends a pseudo-random word that is different on every
+// call of Compute (a random benchmark; a one-shot replay of recorded signals).
+type moodyStrategy struct {
+	seed  uint64
+	calls atomic.Int64
+}
+
+func (m *moodyStrategy) Name() string { return "moody" }
+
+func (m *moodyStrategy) Compute(c <-chan *asset.Snapshot) <-chan strategy.Action {
+	x := m.seed + uint64(m.calls.Add(1))*0x9e3779b97f4a7c15
+	return helper.Map(c, func(*asset.Snapshot) strategy.Action {
+		x ^= x << 13
+		x ^= x >> 7
+		x ^= x << 17
+		return strategy.Action(int(x%3) - 1)
+	})
+}
+
+func (m *moodyStrategy) Report(c <-chan *asset.Snapshot) *helper.Report {
+	go helper.Drain(c)
+	return helper.NewReport("moody", helper.SliceToChan([]time.Time{}))
 }
